@@ -23,7 +23,7 @@ P = {
  "C04": ("Every first consumption of the peer's Finished in a DTLS 1.2 flight parser is followed on every advancing exit by a successful equality test of verify_data against PRF(master secret, role label, canonical transcript); DTLS 1.3 success exits dominated by verifyPeerFinished; second ClientHello validated against the first.",
          "That every byte mutation changes the hash (cryptographic).",
          "must-pass-through with failure-assumption path exploration + rule-list table comparison"),
- "C05": ("Receive-path ordering: replay check before decrypt, accept-closure invoked only by consumers of authenticated records, CID presence/equality checks on every decrypt-success path, no alert/emit reachable from the prepare/decrypt path, epoch-0 application data refused, AAD reads every header field.",
+ "C05": ("Receive-path ordering: replay check before decrypt, accept-closure invoked only by consumers of authenticated records, CID presence/equality checks on every decrypt-success path, no alert/emit reachable from the prepare/decrypt path, epoch-0 application data refused, AAD reads every header field; DTLS 1.3 open(): nonce/ciphertext/additional-data provenance, result only after a successful AEAD Open, full comparison of the unmasked on-wire sequence bits with the reconstructed number.",
          "Payload equality (AEAD correctness is the library's); replay-window semantics.",
          "dominance ordering + who-may-call + call-graph reachability + field-read sets"),
  "C06": ("No delivery path bypasses the replay detector; window argument derives from the configured value; one detector per epoch; DTLS 1.3 highest-accepted sequence written only inside the accept closure.",
@@ -35,10 +35,10 @@ P = {
  "C08": ("Panic-freedom classes (index/slice bounds by a linear-inequality abstract interpreter with Fourier-Motzkin entailment, nil map-element dereference, unchecked type assertion, explicit panic) on everything reachable from the network entry points; guarded growth of the two named buffers; decode errors mapped to drop.",
          "General deadlock freedom, allocation volume, CPU; bounds inside std/x-crypto.",
          "abstract interpretation (linear inequalities) over SSA + call-graph reachability"),
- "C09": ("Single allocator of record sequence numbers, no other writer of the counter, every caller holds Conn.lock and the emit roots hold writeLock through the write, the allocated number is the number stored in every header marshalled/encrypted afterwards, overflow check on the allocator result, nonce dependency set.",
+ "C09": ("Single allocator of record sequence numbers, no other writer of the counter, every caller holds Conn.lock and the emit roots hold writeLock through the write, the allocated number is the number stored in every header marshalled/encrypted afterwards, overflow check on the allocator result, nonce dependency set; DTLS 1.3 nonce = private copy of the IV XOR the big-endian allocated number over the last 8 bytes.",
          "Atomicity semantics of sync/atomic, scheduler behaviour.",
          "who-may-write + lockset + SSA provenance"),
- "C10": ("Layouts, labels and constants extracted from the encoders and compared with tables transcribed from the RFCs: PRF label constants and seed order, key-block partition order, per-suite key/IV/MAC lengths, AAD and CBC MAC layouts (with and without CID), DTLS 1.3 HkdfExpandLabel structure and labels.",
+ "C10": ("Layouts, labels and constants extracted from the encoders and compared with tables transcribed from the RFCs: PRF label constants and seed order, key-block partition order, per-suite key/IV/MAC lengths, AAD and CBC MAC layouts (with and without CID), DTLS 1.3 HkdfLabel structure, label-per-derivation table, Early/Handshake/Master extraction chain, Finished MAC, CertificateVerify input constants, record nonce, AEAD inputs of seal/open, record-number mask generation and application.",
          "P_hash iteration and primitive internals (HMAC/HKDF/AES/CCM).",
          "symbolic byte-layout extraction on SSA + constant tables"),
  "C11": ("Provenance of every committed choice: cipher suite only from FindMatchingCipherSuite over local list, version only from SelectVersion, EMS Require decision table, unsolicited-extension guards.",
